@@ -493,6 +493,33 @@ def main():
         return 2
     if a[0] == '--baseline':
         return baseline()
+    if a[0] == '--unit':
+        # developer view: verify one unit, print every failing obligation with its diagnostics
+        scratch = tempfile.mkdtemp(prefix='rivia-verif-dev-')
+        try:
+            for u in U.load_units():
+                if u.name == a[1]:
+                    r = process_unit(u, None, scratch, tier)
+                    print('unit %s: %s %s (%.1fs)' % (u.name, r['status'], r['reason'] or '', r['wall_s']))
+                    ok = 0
+                    for ob in r['obligations']:
+                        if ob['status'] == 'discharged':
+                            ok += 1
+                            continue
+                        print('  NOT DISCHARGED %s' % ob['name'])
+                        for d in ob.get('diags', []):
+                            print('     %s clause=%s %s' % (d['message'], d.get('_clause'), d.get('_real') or ''))
+                            for sp in d['spans'][:3]:
+                                print('        gen:%d %s' % (sp['line'], sp['text'][:150]))
+                    print('  discharged %d/%d, vacuity %d (all rejected: %s)' % (ok, len(r['obligations']), len(r['vacuity']), all(v['rejected'] for v in r['vacuity'])))
+                    if r['status'] == 'undecided':
+                        for d in r['diagnostics']:
+                            if d['level'] == 'error' and V.classify_message(d['message']) == 'compile':
+                                print('  COMPILE: %s' % d['rendered'][:700])
+                    return 0 if r['status'] == 'ok' and ok == len(r['obligations']) else 1
+        finally:
+            shutil.rmtree(scratch, ignore_errors=True)
+        return 2
     if a[0] == '--gen':
         return gen(a[1], reach='--reach' in a)
     if a[0] == '--all':
